@@ -64,6 +64,11 @@ def r1(P: Project, R: Report) -> None:
         n += 1
         want = _cmp((cy, cm, cd), ast.Lt(), CUTOFF)
         vals = {(k, v if k != "raise" else str(v)) for k, v, _n in res}
+        opaque = [v for k, v in vals if isinstance(v, tuple) and v and v[0] == "<opaque>"]
+        if opaque:
+            # the decision returns a value this rule cannot evaluate from constants (e.g. a cutoff computed by a call at
+            # import time): undecided, not a disagreement
+            raise AnalysisError(f"supports_batching returns `{opaque[0][1]}`, which does not fold to a comparison with constants (decision outside the decidable fragment)")
         ok = vals == {("return", want)}
         sig = (cy.rel(CUTOFF[0]), cm.rel(CUTOFF[1]), cd.rel(CUTOFF[2]))
         nontrivial.add(sig)
@@ -122,7 +127,8 @@ def r1(P: Project, R: Report) -> None:
                 for t in tg:
                     if isinstance(t, ast.Attribute) and t.attr == "batching_enabled":
                         writers.append(f.fq)
-    extra_w = sorted(set(writers) - {f"{A.MOD_BATCH}:BatchProcessor.__init__", f"{A.MOD_BATCH}:BatchProcessor.update_protocol_version"})
+    # by qualified name within whatever module the class lives in now (it may have moved and be re-exported)
+    extra_w = sorted(w for w in set(writers) if w.split(":", 1)[1] not in ("BatchProcessor.__init__", "BatchProcessor.update_protocol_version"))
     R.ob("R1", "only BatchProcessor writes batching_enabled", not extra_w, "", f"other writers: {extra_w}")
 
 
